@@ -30,11 +30,13 @@ pub struct Shared {
     pub waiting_for_input: bool,
     pub reads: usize,
     pub writes: usize,
+    /// the peer still holds back input: an empty input means wait, not end-of-stream
+    pub hold: bool,
 }
 impl Shared {
     pub fn new(input: &[u8], end: EndMode, rd: Vec<Rd>, wr: Vec<Wr>, fl: Vec<Fl>) -> Arc<Mutex<Shared>> {
         Arc::new(Mutex::new(Shared { input: input.iter().copied().collect(), end, rd: rd.into(), wr: wr.into(), fl: fl.into(), wlog: vec![], events: vec![],
-            auto_wake: false, read_waker: None, waiting_for_input: false, reads: 0, writes: 0 }))
+            auto_wake: false, read_waker: None, waiting_for_input: false, reads: 0, writes: 0, hold: false }))
     }
 }
 pub struct MockR(pub Arc<Mutex<Shared>>);
@@ -49,6 +51,7 @@ impl AsyncRead for MockR {
         let a = s.rd.pop_front().unwrap_or(Rd::All);
         if a == Rd::Pending { s.events.push(format!("R{cap}:P")); if s.auto_wake { cx.waker().wake_by_ref(); } return Poll::Pending; }
         if s.input.is_empty() {
+            if s.hold { s.events.push(format!("R{cap}:W")); s.read_waker = Some(cx.waker().clone()); s.waiting_for_input = true; return Poll::Pending; }
             return match s.end {
                 EndMode::Eof => { s.events.push(format!("R{cap}:0")); Poll::Ready(Ok(0)) }
                 EndMode::Pend => { s.events.push(format!("R{cap}:W")); s.read_waker = Some(cx.waker().clone()); s.waiting_for_input = true; Poll::Pending }
